@@ -177,6 +177,17 @@ func genDijk(neg bool) func(r *rng, idx int, st stats) caseOut {
 				g = rv.Reverse() // search through a view of the view
 			}
 		}
+		if r.chance(25) {
+			// a vertex was removed and added again (with its edges, in their original order)
+			x := r.intn(n)
+			g.Remove(&hv{key: x})
+			g.Add(&hv{key: x, payload: x})
+			for _, e := range edges {
+				if e.a == x || e.b == x {
+					g.AddEdgeWeighted(&hv{key: e.a}, &hv{key: e.b}, e.w)
+				}
+			}
+		}
 		if r.chance(40) {
 			// edges added to a COPY must not show up in the graph that is searched
 			cp := g.Copy()
@@ -250,6 +261,18 @@ func genHist(r *rng, idx int, st stats) caseOut {
 		k1, k2 := r.intn(nkeys), r.intn(nkeys)
 		var op, t string
 		var run func()
+		if r.chance(4) {
+			// drain the graph through this handle: every vertex is removed (views stay attached)
+			for k := 0; k < nkeys && panicAt < 0; k++ {
+				k := k
+				ops = append(ops, fmt.Sprintf("(ORemove %d%%nat %s)", h, z(k)))
+				txt = append(txt, fmt.Sprintf("remove h%d k%d", h, k))
+				if p, _ := withRecover(func() { g.Remove(&hv{key: k}) }); p {
+					panicAt = len(ops) - 1
+				}
+			}
+			continue
+		}
 		c := r.intn(100)
 		switch {
 		case c < 22:
@@ -287,7 +310,7 @@ func genHist(r *rng, idx int, st stats) caseOut {
 			run = func() { graphs = append(graphs, new(am.VerifGraph)) }
 		default:
 			op, t = fmt.Sprintf("(OVertex %d%%nat %s)", h, z(k1)), fmt.Sprintf("vertex h%d k%d", h, k1)
-			run = func() { g.Vertex(k1) }
+			run = func() { g.Vertex(k1); g.Vertices(); g.OutEdges(&hv{key: k1}); g.InEdges(&hv{key: k1}) } // reads in the middle of a history change nothing
 		}
 		ops = append(ops, op)
 		txt = append(txt, t)
